@@ -663,6 +663,7 @@ _POINTER_ADTS = {"std::boxed::Box", "std::ptr::Unique", "std::ptr::NonNull", "st
 
 _KNOWN_FNS = None
 _INLINE_CACHE = {}
+_INLINE_OFF = [0]  # >0: helper inlining disabled (partial evaluation wants the calls themselves)
 
 
 def known_functions():
@@ -680,18 +681,18 @@ def known_functions():
     return _KNOWN_FNS
 
 
-def inline_value(facts, key, depth=0):
+def inline_value(facts, key, depth=0, force=False):
     """Value of a *new* small helper function (one that did not exist when the rules were written, e.g. extracted by a
     refactoring): its return term over its own ('arg', i), with the convention of this library that the Ok/Some payload of x is
     reported as x — error alternatives are dropped, Ok/Some payloads unwrapped.  None when the function is not inlinable
     (known function, trait method, has loops or `&mut` parameters, too large, recursive)."""
-    ck = (id(facts), key)
+    ck = (id(facts), key, force)
     if ck in _INLINE_CACHE:
         return _INLINE_CACHE[ck]
     _INLINE_CACHE[ck] = None  # recursion guard
     b = facts.bodies.get(key)
     known = known_functions()
-    if b is None or not known or key in known or depth > 2:
+    if b is None or depth > 2 or (not force and (not known or key in known)):
         return None
     r = b.raw
     if r.get("kind") not in ("fn", "assocfn") or r.get("impl_trait") or "{closure" in key:
@@ -957,7 +958,7 @@ class Terms:
                 if s["k"] == "assign" and s["place"]["p"] and s["place"]["p"][0]["k"] == "deref" and s["rv"]["k"] == "agg" and s["rv"].get("agg") == "array":
                     return ("call", "vec!", (self.rvalue(s["rv"], bb, pos),), bb)
         rk = f.get("resolved") or f.get("def")
-        if rk in self.body.facts.bodies and rk not in known_functions() and known_functions():
+        if not _INLINE_OFF[0] and rk in self.body.facts.bodies and rk not in known_functions() and known_functions():
             val = inline_value(self.body.facts, rk, self.inline_depth)
             if val is not None:
                 return substitute_args(val, args)
@@ -1694,6 +1695,20 @@ def path_facts(path):
     """comparison facts known to hold along a path (from its bool switches)"""
     facts = set()
     for dt, label, bb in path.conds:
+        if dt[0] == "discr":
+            # match a.cmp(&b) { Less | Equal | Greater }: the selected arms are comparison facts
+            d = dt[1]
+            while d[0] == "call" and _is_unwrapish(d[1]) and d[2]:
+                d = d[2][0]
+            if d[0] == "call" and re.search(r"std::cmp::(Ord>?::cmp|PartialOrd(<[^>]*>)?>?::partial_cmp)$|::cmp$|::partial_cmp$", d[1]) and len(d[2]) == 2:
+                a_, b_ = d[2]
+                names = set(label[1]) if isinstance(label, tuple) else {label}
+                names &= {"Less", "Equal", "Greater"}
+                m = {frozenset(["Less"]): ("Lt", a_, b_), frozenset(["Greater"]): ("Lt", b_, a_), frozenset(["Equal"]): ("Eq", a_, b_), frozenset(["Less", "Equal"]): ("Le", a_, b_), frozenset(["Greater", "Equal"]): ("Le", b_, a_), frozenset(["Less", "Greater"]): ("Ne", a_, b_)}
+                c3 = m.get(frozenset(names))
+                if c3:
+                    facts.add(canon_fact(c3, True))
+            continue
         c = as_cmp(dt)
         if c is None:
             continue
@@ -1703,6 +1718,29 @@ def path_facts(path):
             truth = cond_truth(label)
         facts.add(canon_fact(c, truth))
     return facts
+
+
+_REL = {"Lt": {"<"}, "Le": {"<", "="}, "Eq": {"="}, "Ne": {"<", ">"}}
+
+
+def order_region(facts, a, b):
+    """the order relations between a and b ('<', '=', '>') that are consistent with the canonical facts of a path"""
+    region = {"<", "=", ">"}
+    flip = {"<": ">", ">": "<", "=": "="}
+    for op, x, y in facts:
+        if op not in _REL:
+            continue
+        if (x, y) == (a, b):
+            region &= _REL[op]
+        elif (x, y) == (b, a):
+            region &= {flip[r] for r in _REL[op]}
+    return region
+
+
+def implies(facts, goal):
+    """facts (canonical comparisons of one path) entail the comparison `goal` = (op, a, b)"""
+    op, a, b = canon_fact(goal, True)
+    return order_region(facts, a, b) <= _REL[op] and order_region(facts, a, b) != set() or goal in facts
 
 
 def result_variant(t):
@@ -1879,7 +1917,7 @@ def loop_exit_edges(body, blocks):
 
 
 class Row:
-    __slots__ = ("path", "sel", "facts", "bools", "ret", "end")
+    __slots__ = ("path", "sel", "facts", "bools", "ret", "end", "retn")
 
 
 def table(body, max_paths=20000):
@@ -1900,6 +1938,7 @@ def table(body, max_paths=20000):
         r.facts = path_facts(p)
         r.end = p.end
         r.ret = nosite(deep_strip(path_return_term(body, p))) if p.end == "return" else None
+        r.retn = norm_return(body.facts, r.ret) if r.ret is not None else None  # `x.map(f)` shown as Ok{f(x)} / Some{f(x)}
         rows.append(r)
     return rows
 
@@ -2172,6 +2211,104 @@ def canon_default(t):
     return rewrite(t, f)
 
 
+def spec_eval(F, body, env, depth=0):
+    """Partial evaluation of a loop-free function under known enum variants of some arguments (env: {arg index: variant name}):
+    the value it returns on the paths consistent with those variants.  Switches on the result of a call to another workspace
+    function whose arguments are arguments of this one are decided by evaluating that function under the mapped variants
+    (`if let Some(k) = self.factor(target) { v * k } else { v }`).  Returns the (site-free, stripped) term, or None when the
+    consistent paths do not agree on one value."""
+    if depth > 3 or body.natural_loops():
+        return None
+    _INLINE_OFF[0] += 1
+    try:
+        return _spec_eval(F, body, env, depth)
+    finally:
+        _INLINE_OFF[0] -= 1
+
+
+def _spec_eval(F, body, env, depth):
+    vals = []
+    for p in enumerate_paths(body, max_paths=200000):
+        if p.end == "unreachable":
+            continue
+        feasible = True
+        binds = {}
+        for dt, label, bb in p.conds:
+            if dt[0] != "discr":
+                continue
+            base = nosite(deep_strip(dt[1]))
+            names = set(label[1]) if isinstance(label, tuple) else {label}
+            if base[0] == "arg" and base[1] in env:
+                if env[base[1]] not in names:
+                    feasible = False
+                    break
+            elif base[0] == "call" and re.sub(r"\{.*\}$", "", base[1]) in F.bodies:
+                hb = F.bodies[re.sub(r"\{.*\}$", "", base[1])]
+                henv = {}
+                for j, a in enumerate(base[2]):
+                    if a[0] == "arg" and a[1] in env:
+                        henv[j + 1] = env[a[1]]
+                if not henv:
+                    continue
+                r = spec_eval(F, hb, henv, depth + 1)
+                if r is None:
+                    continue
+                rv = result_variant(r)
+                if rv is not None and rv not in names:
+                    feasible = False
+                    break
+                # map the helper's own argument symbols back to ours
+                actuals = tuple(base[2])
+                rr = substitute_args(r, actuals)
+                binds[base] = agg_payload(rr) if rv in ("Some", "Ok") and agg_payload(rr) is not None else rr
+        if not feasible:
+            continue
+        if p.end != "return":
+            return None
+        rt = nosite(deep_strip(path_return_term(body, p)))
+        if binds:
+            rt = rewrite(rt, lambda x: binds.get(x))
+        vals.append(rt)
+    uniq = list(dict.fromkeys(vals))
+    if len(uniq) == 1:
+        return uniq[0]
+    return None
+
+
+def expand_calls(F, t, depth=0):
+    """replace calls to small loop-free workspace functions (also *known* ones) by their values — for rules that state a
+    formula and do not care how it is distributed over helper functions (`f(x) = g(h(x))` vs the formula written out)"""
+    if depth > 3:
+        return t
+
+    def f(x):
+        if x[0] == "call":
+            k = re.sub(r"\{.*\}$", "", x[1])
+            if k in F.bodies:
+                v = inline_value(F, k, 0, force=True)
+                if v is not None:
+                    args = tuple(expand_calls(F, a, depth + 1) for a in x[2])
+                    return expand_calls(F, nosite(deep_strip(substitute_args(v, args))), depth + 1)
+        return None
+    return rewrite(t, f)
+
+
+def norm_return(F, t):
+    """top level of a returned value: `x.map(f)` on a Result/Option is shown as Ok{f(x)} / Some{f(x)} so that rules which look
+    for the Ok payload see the same thing as for `Ok(f(x?))`"""
+    if t is None or t[0] != "call" or len(t[2]) != 2:
+        return t
+    m = re.search(r"(Option::<T>|Result::<T, E>)::map$", t[1])
+    if not m:
+        return t
+    inner = norm_adaptors(F, t)
+    if inner == t:
+        return t
+    if m.group(1).startswith("Result"):
+        return ("agg", "std::result::Result", "Ok", (("0", inner),))
+    return ("agg", "std::option::Option", "Some", (("0", inner),))
+
+
 def norm_adaptors(F, t, depth=0):
     """Option/Result adaptors applied to a value are read through, in the payload convention of this library (the Ok/Some
     payload of x is reported as x): `x.map(|v| f(v))` / `x.and_then(..)` become f(x); transpose/copied/cloned/as_ref/ok are
@@ -2414,6 +2551,68 @@ def iteration_table(body, head, max_paths=5000):
             else:
                 stack.append((nb, env, c2, stores, seen, calls))
     return rows
+
+
+def accumulations(body, depth=0):
+    """fold-like accumulations in a body and in the *new* helper functions it calls, whatever their spelling:
+       * loop form   `let mut acc = seed; for x in src { acc = step(acc, x) }`
+       * adaptor form `src.fold(seed, |acc, x| step)` / `try_fold`
+    each as dict(seed, step, acc, elem, src, where): `step` is a term in which `acc` and `elem` stand for the accumulator
+    and the element (payload convention: an element `x?` is reported as x)."""
+    F = body.facts
+    out = []
+    U = lambda t: rewrite(nosite(deep_strip(t)), lambda x: unmut(x) if x[0] == "mut" else None)
+    # loop form
+    heads = sorted({h for h, _ in body.natural_loops()})
+    for h in heads:
+        try:
+            rows = iteration_table(body, h)
+        except Exception:
+            continue
+        backs = [r for r in rows if r.kind == "back"]
+        if not backs:
+            continue
+        cands = set()
+        for r in backs:
+            for l, v in r.env.items():
+                if contains(v, lambda q: q == ("carried", l)) and U(v) != ("carried", l):
+                    cands.add(l)
+        for l in sorted(cands):
+            steps = {U(r.new(l)) for r in backs}
+            if len(steps) != 1:
+                continue
+            nxs = [U(v) for _, k, v in backs[0].sites if k and itm(k, "next")]
+            elem = nxs[0] if nxs else None
+            out.append({"seed": U(loop_entry_value(body, h, l)), "step": steps.pop(), "acc": ("carried", l), "elem": elem, "src": elem[2][0] if elem else None, "where": body.where(h), "form": "loop", "fn": body.path})
+    # adaptor form
+    tm = Terms(body)
+    for c in body.calls():
+        k = c.callee or ""
+        if (itm(k, "fold") or itm(k, "try_fold")) and len(c.args) == 3:
+            cl = tm.operand(c.args[2], c.bb)
+            if cl[0] == "closure" and cl[1] in F.bodies:
+                cb = F.bodies[cl[1]]
+                rt = U(Terms(cb).return_term())
+                alts = list(rt[1]) if rt[0] == "phi" else [rt]
+                kept = []
+                for a in alts:
+                    if is_err_value(a) or result_variant(a) in ("Err", "None"):
+                        continue
+                    if result_variant(a) in ("Ok", "Some"):
+                        a = agg_payload(a)
+                    kept.append(a)
+                if len(kept) != 1:
+                    continue
+                caps = cl[2]
+                step = rewrite(kept[0], lambda y: U(caps[int(y[2])]) if y[0] == "field" and y[1] == ("arg", 1) and str(y[2]).isdigit() and int(y[2]) < len(caps) else None)
+                out.append({"seed": U(tm.operand(c.args[1], c.bb)), "step": step, "acc": ("arg", 2), "elem": ("arg", 3), "src": U(tm.operand(c.args[0], c.bb)), "where": c.where(), "form": "fold", "fn": body.path})
+    # new helpers
+    if depth < 2 and known_functions():
+        for c in body.calls():
+            k = c.callee
+            if k and k in F.bodies and k not in known_functions() and "{closure" not in k:
+                out += accumulations(F.bodies[k], depth + 1)
+    return out
 
 
 def loop_entry_value(body, head, l):
